@@ -41,8 +41,8 @@ def _path_case(draw, tier):
     then a cast / wrapper / context that is meaningful for that kind."""
     leaf_kind = draw(st.sampled_from(["int", "int", "float", "str", "str", "numeric-str", "bool", "bool", "list", "dict", "null", "missing"]))
     leaf = {
-        "int": st.integers(-1000, 1000), "float": st.sampled_from([0.5, -2.25, 1.5, 100.125]),
-        "str": st.sampled_from(["str", "", "Mixed Case", "  pad  ", "it's", 'q"q', "a\\b", "é", "true"]), "numeric-str": st.sampled_from(["12", "-7", "0"]),
+        "int": st.integers(-1000, 1000), "float": st.sampled_from([0.5, -2.25, 1.5, 100.125, 2.5, -2.5, 3.5, 2.4]),
+        "str": st.sampled_from(["str", "", "Mixed Case", "  pad  ", "it's", 'q"q', "a\\b", "é", "true"]), "numeric-str": st.sampled_from(["12", "-7", "0", "4.5", "-0.5", "2.25"]),
         "bool": st.booleans(), "list": st.lists(_scalar, max_size=3), "dict": st.dictionaries(st.sampled_from(SIMPLE_KEYS), _scalar, max_size=3),
         "null": st.none(), "missing": st.none(),
     }[leaf_kind]
@@ -77,7 +77,7 @@ def _path_case(draw, tier):
         doc = {"a": doc}
         steps = [["k", "a"]] + steps
     if leaf_kind in ("int", "float"):
-        cast = draw(st.sampled_from([None, None, "NUMBER(10,2)", "FLOAT", "VARCHAR"] + (["INT"] if leaf_kind == "int" else [])))
+        cast = draw(st.sampled_from([None, None, "NUMBER(10,2)", "FLOAT", "VARCHAR", "INT"]))  # a fraction cast to INT rounds half away from zero
         wrapper = None
         context = draw(st.sampled_from(["select", "eq", "gt-and", "or", "not", "arith", "between", "in", "case-when", "where", "is-null"]))
     elif leaf_kind == "numeric-str":
@@ -217,17 +217,15 @@ def run_path(case, ctx: Ctx) -> None:
         elif isinstance(member, bool) or isinstance(member, (dict, list)):
             raise InvalidCase()
         elif isinstance(member, str):
-            if not re.fullmatch(r"-?\d+", member):
+            if not re.fullmatch(r"-?\d+(\.\d+)?", member):
                 raise InvalidCase()  # non-numeric strings may reject
-            val = int(member)
+            val = int(member) if re.fullmatch(r"-?\d+", member) else Decimal(member)
         else:
             val = member
         expr = f"{expr}::{cast}"
         if val is not None:
             if cast == "INT":
-                if val != int(val):
-                    raise InvalidCase()
-                val, kind = int(val), "int"
+                val, kind = int(sfref.to_decimal(val if not isinstance(val, float) else repr(val), 38, 0)), "int"  # half away from zero
             elif cast == "FLOAT":
                 val, kind = float(val), "float"
             else:
@@ -303,6 +301,8 @@ def run_path(case, ctx: Ctx) -> None:
     odd_key = any(k == "k" and not _IDENT.match(x) for k, x in steps)
     # (a string member converted by any cast needs its JSON quotes stripped first, like the text conversions)
     texty = cast in ("VARCHAR", "STRING", "TEXT") or wrapper in ("UPPER", "LOWER", "TRIM") or (cast is not None and isinstance(member, str))
+    # (likewise a fraction cast to INT: through its text it rounds half away from zero, as a raw JSON number it does not)
+    texty = texty or (cast == "INT" and isinstance(member, float) and member != int(member))
     shape = "odd-key" if odd_key else ("chained-brackets" if n_brackets >= 2 else ("bracket-last-step+text-conversion" if path_part.endswith("]") and texty else None))
     if shape:
         ctx.cls(f"known-shape:{shape}")
@@ -629,6 +629,54 @@ def run_flatten(case, ctx: Ctx) -> None:
         close_instance(fs)
 
 
+# ------------------------------------------------------------------------------------------ an index written on an array literal
+
+
+@st.composite
+def _literal_index_case(draw, tier):
+    kind = draw(st.sampled_from(["int", "str", "bool", "float"]))
+    elem = {"int": st.integers(-50, 50), "str": st.sampled_from(["p", "q", "", "it's", "Mixed"]), "bool": st.booleans(), "float": st.sampled_from([1.5, -2.25, 0.5])}[kind]
+    elems = draw(st.lists(elem, max_size=5))  # one JSON kind per array (mixed kinds are a listed finding)
+    return {"elems": elems, "form": draw(st.sampled_from(["ARRAY_CONSTRUCT", "bracket-literal"])), "idx": draw(st.integers(0, 6)), "cast": draw(st.sampled_from([None, None, "native"]))}
+
+
+def run_literal_index(case, ctx: Ctx) -> None:
+    elems, form, idx, cast = case["elems"], case["form"], case["idx"], case.get("cast")
+    if not isinstance(elems, list) or form not in ("ARRAY_CONSTRUCT", "bracket-literal") or not isinstance(idx, int) or idx < 0 or len({type(e) for e in elems}) > 1 or cast not in (None, "native"):
+        raise InvalidCase()
+    if any(not isinstance(e, (bool, int, float, str)) for e in elems) or (form == "bracket-literal" and not elems):
+        raise InvalidCase()
+    lits = ", ".join(("TRUE" if e else "FALSE") if isinstance(e, bool) else (sql_str(e) if isinstance(e, str) else repr(e)) for e in elems)
+    arr = f"ARRAY_CONSTRUCT({lits})" if form == "ARRAY_CONSTRUCT" else f"[{lits}]"
+    expr = f"{arr}[{idx}]"
+    want = elems[idx] if idx < len(elems) else MISSING
+    native = None
+    if cast == "native" and want is not MISSING and isinstance(want, (int, float)) and not isinstance(want, bool):
+        native = "INT" if isinstance(want, int) else "FLOAT"
+        expr += f"::{native}"
+    fs = new_instance()
+    try:
+        cur = fs.connect("db1", "s1").cursor()
+        sql = f"SELECT {expr} AS R"
+        ctx.cls(f"literal-index:{form}", "literal-index:out-of-range" if want is MISSING else f"literal-index:position-{min(idx, 2)}")
+        ctx.nontrivial = len(elems) >= 2
+        o = run(cur, sql)
+        if not o.ok:
+            ctx.fail(f"C11|literal-index|raises|{o.etype}|{form}", f"{sql}: {o}")
+            return
+        got = o.rows[0][0]
+        if want is MISSING:
+            if got is not None:
+                ctx.fail(f"C11|literal-index|out-of-range-not-null|{form}", f"{sql}: {got!r}")
+        elif native:
+            if got != want:
+                ctx.fail(f"C11|literal-index|wrong-element|{form}|cast", f"{sql}: got {got!r}, element {idx} is {want!r}")
+        elif not _json_equal(got, want):
+            ctx.fail(f"C11|literal-index|wrong-element|{form}", f"{sql}: got {got!r}, element {idx} is {want!r}")
+    finally:
+        close_instance(fs)
+
+
 def _selftest() -> None:
     d = {"a": {"b": [1, "x", None, {"c": True}]}, "k1": "str"}
     assert navigate(d, [["k", "a"], ["k", "b"], ["i", 1]]) == "x"
@@ -683,6 +731,16 @@ PROP = Prop(
             thorough=3000,
             quick_shards=4,
             budget_quick=40,
+        ),
+        Facet(
+            name="literal_index",
+            strategy=_literal_index_case,
+            run=run_literal_index,
+            rule="An index written directly on ARRAY_CONSTRUCT(...) or on a [..] literal of 0-5 same-kind scalars (ints, strings, booleans, fractions), position 0-6, optionally cast to the element's native type: the JSON element at that 0-based position, NULL beyond the end.",
+            quick=60,
+            thorough=600,
+            quick_shards=2,
+            budget_quick=30,
         ),
     ],
     assumptions=[
